@@ -6,7 +6,7 @@ import ast
 import re
 
 from ..cfg import cfg_of
-from ..core import seq, AnalysisError, call_name, unparse, walk_no_nested
+from ..core import named_args, seq, AnalysisError, call_name, unparse, walk_no_nested
 from ..pattern import _parse, body_is, find, find_expr, has, has_expr, m_node
 from ..report import Ctx
 
@@ -67,7 +67,7 @@ def run(ctx: Ctx) -> None:
     smp = [n for n in ast.walk(lp) if isinstance(n, ast.Call) and call_name(n) == 'sample']
     ok = len(smp) == 1
     if ok:
-        kw = {k.arg: unparse(k.value) for k in smp[0].keywords}
+        kw = named_args(smp[0])
         src = unparse(smp[0].func.value)
         sdef = asg.get(src)
         ok = kw.get('n') == kname and kw.get('replace') == 'False' and sdef is not None and re.fullmatch(r'self\.alternatives\[self\.alternatives\[self\.id_column\]\.isin\((\w+)\)\]', unparse(sdef.value)) is not None
